@@ -6,8 +6,9 @@ import re as _re
 
 from ..model import AnalysisError, Program
 from ..report import Run
-from ..skel import quoted_spans, render, skeletons
+from ..skel import function_skeletons, quoted_spans, render, skeletons
 from ..symex import Const, CtxV, Hole, Lit, Opaque, SlotP, Str, Sym, show
+from ..symex import values_in
 from .c06 import paths
 
 # text placed inside string quotes that cannot contain a quote by construction (one reason each)
@@ -58,13 +59,14 @@ def check(program: Program, run: Run) -> None:
     run.rule("R1 quote-wrap requires escape: inner text of every '...'-span is escaped(q), quote-free by kind, or a rendered slot")
     run.rule("R2 dialect escape coverage: every value position of a dialect builder constructs its wrapper via self._wrapper_cls (or the base wrapper consults ctx.dialect)")
     run.rule("R3 value wrappers emit one literal fragment on every path")
-    sk = skeletons(program)
+    fsk = function_skeletons(program)
     sinks = 0
     seen = set()
-    for c, (skv, ev) in sk.items():
+    for f, skv in fsk.items():
+        c = f.cls
         if any(k.name in EXEMPT_CLASSES for k in c.mro):
             continue
-        all_paths = list(paths(skv, limit=64, opaque_leaf=True))
+        all_paths = list(paths(skv, limit=4000, opaque_leaf=True))
         # quoting that happens inside a transformed string (e.g. quoted first, backslash-doubled afterwards)
         todo = [p for flat in all_paths for p in flat if isinstance(p, Opaque)]
         seen_op = set()
@@ -74,7 +76,7 @@ def check(program: Program, run: Run) -> None:
                 continue
             seen_op.add(id(op))
             for st in op.inner:
-                for flat in paths(st, limit=32, opaque_leaf=True):
+                for flat in paths(st, limit=256, opaque_leaf=True):
                     all_paths.append(flat)
                     todo.extend(p for p in flat if isinstance(p, Opaque))
         for flat in all_paths:
@@ -89,7 +91,7 @@ def check(program: Program, run: Run) -> None:
                     if k in ("lit",):
                         continue
                     src = getattr(p, "src", ()) or ()
-                    fn = src[0] if src else c.resolve("get_sql").qualname
+                    fn = src[0] if src else f.qualname
                     chain = [x for x in (src[3] if len(src) > 3 else ()) if not x.startswith("utils.")]
                     if fn.startswith("utils.") and chain:
                         fn = chain[-1]
